@@ -37,6 +37,9 @@ def run_studio(ctx, seed):
             cats[-1] = 'OpX'
     counts = {c: rng.randrange(0, 7) for c in cats}
     explicit = rng.random() < 0.5
+    if seed % 10 == 3:
+        counts[cats[0]] = rng.choice([21, 23, 27])        # more recordings in one category than any default limit (explicit ids are all played)
+        explicit = True
     failing = set(c for c in cats if rng.random() < 0.25)
     consumption = rng.choice(['sequential', 'round_robin', 'random', 'peek_then_drain'])
     dedicated = rng.random() < 0.12
@@ -258,6 +261,16 @@ def run_studio(ctx, seed):
         ctx.count('mode_explicit' if explicit else 'mode_lookup')
         if dedicated:
             ctx.count('studios_dedicated_process')
+        import logging
+        verbose = seed % 5 == 2
+        if verbose:
+            # the host application runs with verbose logging switched on (root logger at DEBUG, output discarded here)
+            root_logger = logging.getLogger()
+            old_level, null = root_logger.level, logging.NullHandler()
+            root_logger.addHandler(null)
+            root_logger.setLevel(logging.DEBUG)
+            logging.disable(logging.NOTSET)           # (the harness silences logging globally; not for these studios)
+            ctx.count('studios_with_debug_logging')
         slow = dedicated and seed % 2 == 0
         if slow:
             # injected delay at an existing suspension point: the parent is descheduled right after forking a worker
@@ -285,6 +298,10 @@ def run_studio(ctx, seed):
         out3, j3 = play_once(failing3)
         judge(out3, j3, failing3, 'third (tuner situation changed)')
         ctx.count('plays_of_one_studio', 3)
+        if verbose:
+            logging.disable(logging.CRITICAL)
+            root_logger.setLevel(old_level)
+            root_logger.removeHandler(null)
 
 
 def run(ctx):
